@@ -79,6 +79,25 @@ func (s *svcScenario) step() (string, string) {
 	case k < 6:
 		d := cl.DTs[r.Intn(len(cl.DTs))]
 		w.localOp(d)
+		if r.Intn(40) == 0 && d.DT.GetState() == model.StateOfDatatype_SUBSCRIBED {
+			// a long offline burst: 60-140 operations with transactions in between accumulate
+			// before the next sync (whatever the client does with a large pending list - one
+			// message or several - units stay whole and nothing is lost)
+			n := 60 + r.Intn(80)
+			w.c.Step("%s/%s burst of %d local operations and transactions", cl.Alias, d.Key, n)
+			for i := 0; i < n; i++ {
+				if i%16 == 15 {
+					var body []crdt.Op
+					for j := 0; j < 2+r.Intn(4); j++ {
+						body = append(body, w.g.Op(wrapRep(d)))
+					}
+					runTx(wrapRep(d), body, nil, false)
+					continue
+				}
+				crdt.Apply(d.DT, w.g.Op(wrapRep(d)))
+			}
+			w.c.Count("long_bursts", 1)
+		}
 		if r.Intn(6) == 0 {
 			var body []crdt.Op
 			for i := 0; i < 1+r.Intn(3); i++ {
